@@ -9,7 +9,7 @@ property's wording.  Only *reachable* cells are compared.
 import itertools
 import re
 
-from ..astq import walk, kids, strip, canon, qt, dqt, where
+from ..astq import walk, kids, strip, canon, qt, dqt, where, if_parts
 from ..evalx import Interp, SymVal, Unsupported, Ref
 from ..extract import AnalysisBroken
 
@@ -1851,3 +1851,65 @@ def pip_wrap_rule(db, chk, cfg, rule="WRAP.container-end"):
     if n == 0:
         raise AnalysisBroken("PointInPolygon not found")
     return n
+
+
+# ---------------------------------------------------------------------------
+# AddNewIntersectNode: a corrected intersection point stays on an edge (C01)
+# ---------------------------------------------------------------------------
+
+def ip_on_edge_rule(db, chk, cfg, rule="IP.on-edge"):
+    """AddNewIntersectNode corrects an intersection point that rounding placed outside its scanbeam.  When it clamps the point's y to
+    the scanbeam (the branch for two steep edges) it recomputes x on one of the two edges *at that y*: the corrected point must lie
+    on an edge.  The correction block is interpreted for a point above and a point below the scanbeam and both steepness orders: ip.y
+    becomes top_y resp. bot_y_, and ip.x == TopX(e1 or e2, the new ip.y)."""
+    f = db.one("ClipperBase::AddNewIntersectNode")
+    site = None
+    for s in kids(f.body):
+        if s.get("kind") == "IfStmt":
+            c = canon(if_parts(s)[0])
+            if "ip.y" in c and "top_y" in c and "bot_y_" in c:
+                site = s
+    if site is None:
+        raise AnalysisBroken("AddNewIntersectNode: the out-of-scanbeam correction `if (ip.y > bot_y_ || ip.y < top_y)` not found")
+    TOP, BOT = 10, 20
+    n = 0
+    for y0, want_y in ((TOP - 3, TOP), (BOT + 3, BOT)):
+        for d1, d2 in ((0.5, 2.0), (2.0, 0.5)):
+            box = [None]
+
+            def hook(name, argv, nd):
+                if name in ("fabs", "abs"):
+                    a = db.call_args(nd)[0]
+                    t = canon(a)
+                    return d1 if "e1" in t else (d2 if "e2" in t else NotImplemented)
+                if name == "TopX":
+                    a = db.call_args(nd)
+                    try:
+                        yv = box[0].ev(a[1])
+                    except Unsupported:
+                        yv = canon(a[1])
+                    try:
+                        ev = box[0].ev(a[0])
+                    except Unsupported:
+                        ev = canon(a[0])
+                    return ("TopX", str(ev), yv)
+                return NotImplemented
+            it = Interp(db, {"ip.y": y0, "ip.x": 0, "top_y": TOP, "bot_y_": BOT, "e1.dx": d1, "e2.dx": d2}, call_hook=hook)
+            box[0] = it
+            try:
+                it.exec(site)
+            except Unsupported as e:
+                raise AnalysisBroken("cannot interpret the correction block of AddNewIntersectNode: %s" % e)
+            gy, gx = it.env.get("ip.y"), it.env.get("ip.x")
+            ok = gy == want_y and isinstance(gx, tuple) and gx[0] == "TopX" and gx[2] == gy
+            n += 1
+            chk.instance(rule, {"ip.y_before": "above the scanbeam" if y0 < TOP else "below the scanbeam", "|dx1|,|dx2|": (d1, d2), "ip.y_after": gy,
+                                "ip.x_after": str(gx), "cfg": cfg}, ok=ok)
+            if not ok:
+                chk.violation(rule, f.qual, "y%s/dx%s" % ("<top" if y0 < TOP else ">bot", (d1, d2)),
+                              "an intersection computed %s the scanbeam [top_y=%d, bot_y_=%d] is corrected to y=%s, x=%s: y must become %d and x must be "
+                              "TopX(<one of the two edges>, that same y) - otherwise the vertex is moved off both edges" %
+                              ("above" if y0 < TOP else "below", TOP, BOT, gy, gx, want_y), where(site), cfg=cfg)
+    return n
+
+
